@@ -318,8 +318,11 @@ def mutate_once(rng, cfg, desc):
                 cfg["accessLog"]["format"] = {"script": v}
             desc.append("script %r" % v)
         elif k == 11 and rng.random() < 0.5:
-            which = rng.randrange(3)
-            if which == 0 and isinstance(cfg.get("metrics"), dict) and isinstance(cfg.get("listeners"), list) and cfg["listeners"]:
+            which = rng.randrange(4)
+            if which == 3 and isinstance(cfg.get("accessLog"), dict):
+                cfg["accessLog"]["path"] = rng.choice(["/dev/full", "/sim/full/access.log"])     # a log that cannot be written (no space left)
+                desc.append("accessLog.path on a full file system")
+            elif which == 0 and isinstance(cfg.get("metrics"), dict) and isinstance(cfg.get("listeners"), list) and cfg["listeners"]:
                 e = rng.choice(cfg["listeners"])
                 if isinstance(e, dict) and isinstance(e.get("bind"), str):
                     cfg["metrics"]["bind"] = e["bind"]
@@ -393,6 +396,9 @@ def gen(rng, tier, i):
         hs, proto = sc.client_handshake(lis["http"], "10.9.0.9", int(oaddr.rsplit(":", 1)[1]))
         sc.add_client("after-post%d" % k, lis["http"], [dict(o, on_fail="continue", timeout_ms=8000) for o in hs] + [op("recv_eof", timeout_ms=8000, on_fail="continue")], start_ms=350 + 100 * k)
     sc.meta = {"cls": "m%d" % len(desc), "cfgkey": str(hash(json.dumps(cfg, sort_keys=True, default=str)) % 10 ** 9), "mutations": desc + deep_posts, "probes": probes, "posts": len(post_bodies), "keep_ops": True}
+    # the access log is flushed when it is rotated: ask for it once the probes are through (API prefix /api or whatever survived)
+    sc.api_call("rotate", "POST", "/api/logrotate", start_ms=1500, timeout_ms=8000)
+    sc.actors[-1]["ops"] = [dict(o, on_fail="continue") for o in sc.actors[-1]["ops"]] + [op("sleep", ms=1500)]
     sc.max_ms = 40000
     # (plans with a deeply nested expression either finish at once or run for hours: a shorter watchdog keeps the tier quick)
     plan = sc.plan(want_events=False, watchdog_s=10 if any(m.startswith("deep-nesting") for m in desc + deep_posts) else 30)
